@@ -34,7 +34,7 @@ def _semantics(ctx, cq, op):
 
 
 @rule('SA-IDENT')
-@props('C02', 'C07', 'C09', 'C16')
+@props('C01', 'C02', 'C07', 'C09', 'C16')
 def ident(ctx):
     obs = []
     nsites = 0
